@@ -1,23 +1,9 @@
 (* Coq side of the C06 correspondence run: the parse_info + padding/auxiliary_data description of
    bitstream/vc2.py as a [prog] term of Model/SerDes.v, run through both model interpreters. *)
 From Coq Require Import ZArith List Bool.
-From VC2 Require Import Base.CorrLib Model.SerDes Corr.C21.
+From VC2 Require Import Base.CorrLib Model.SerDes Model.SerDesVC2 Corr.C21.
 Import ListNotations.
 Open Scope Z_scope.
-
-(* targets: 10 "parse_info" (type 1 = ParseInfo): 0 "padding", 1 "_offset", 2 "parse_info_prefix",
-   3 "parse_code", 4 "next_parse_offset", 5 "previous_parse_offset";
-   11 "padding"/"auxiliary_data" (type 2): 6 "bytes".
-   [clamp] = the repaired description (length max(0, next_parse_offset - 13)). *)
-Definition unit_prog (clamp : bool) : prog unit :=
-  Op (OSubEnter 10) (fun _ => Op (OSetType 1) (fun _ =>
-  Op (OByteAlign 0) (fun _ => Op (OComputed 1 (VI 0)) (fun _ =>
-  Op (OUintLit 2 4) (fun _ => Op (OUintLit 3 1) (fun _ =>
-  Op (OUintLit 4 4) (fun npo => Op (OUintLit 5 4) (fun _ =>
-  Op OSubLeave (fun _ =>
-  Op (OSubEnter 11) (fun _ => Op (OSetType 2) (fun _ =>
-  Op (OBytes 6 (let n := asZ npo - 13 in if clamp then Z.max 0 n else n)) (fun _ =>
-  Op OSubLeave (fun _ => Ret tt))))))))))))).
 
 Inductive uobs := UErr (code : Z) | UDes (pos : Z) (hdr : list Z) (payload : list Z) | USer (bytes : list Z) | UNone.
 
